@@ -100,6 +100,13 @@ class Engine:
     def _check(self, *extra):
         t0 = time.time()
         r = self.solver.check(*extra)
+        if r == z3.unknown:
+            # the timeout is wall-clock time: on a loaded machine a query that needs a few seconds of CPU can exceed it. One retry with four times
+            # the budget; a second `unknown` stands (and makes the run inconclusive).
+            self.solver.set("timeout", 4 * self.query_timeout_ms)
+            r = self.solver.check(*extra)
+            self.solver.set("timeout", self.query_timeout_ms)
+            self.stats["retried"] = self.stats.get("retried", 0) + 1
         self.stats["queries"] += 1
         self.stats["solver_s"] += time.time() - t0
         self.stats[str(r)] = self.stats.get(str(r), 0) + 1
